@@ -191,8 +191,7 @@ def parse_behaviours(out):
 
 def simulate(module, cfg, num, depth, seed, workers=4, timeout=600, files=None):
     """tlc -simulate: num behaviours per worker."""
-    per = max(1, (num + workers - 1) // workers)
-    out, st = tlc(module, cfg, workers=workers, simulate="num=%d" % per, depth=depth, seed=seed,
+    out, st = tlc(module, cfg, workers=workers, simulate="num=%d" % num, depth=depth, seed=seed,
                   timeout=timeout, files=files)
     if st["error"] or st["violation"]:
         raise Infra("TLC simulation failed on %s/%s: %s %s\n%s" % (module, cfg, st["error"], st["violation"], out[-3000:]))
